@@ -95,6 +95,7 @@ def run(idx: ProgramIndex, rep: Report, tier: str):
         exhaustive(fi, rep)
         same_mask(fi, rep)
     keyed_cache(idx, rep)
+    own_policy_key(idx, rep, consumers)
     override_coverage(idx, rep)
     mll_scaling(idx, rep)
     covariance_consumes(idx, rep)
@@ -233,6 +234,41 @@ def keyed_cache(idx: ProgramIndex, rep: Report):
     rep.add("C16-3", "%s:DefaultPredictionStrategy._mean_cache[key]" % D.module.name, mc.where, ok,
             "memoised with the policy as key argument, supplied by mean_cache from the current setting" if ok else
             "the mean cache is not keyed by the NaN policy (cached=%s, ignore_args=%s, policy parameter=%s, passed by mean_cache=%s, reads global in body=%s): a switch of policy returns the stale cache" % (dec is not None, ig, has_param, passes, reads_global), {})
+
+
+def own_policy_key(idx: ProgramIndex, rep: Report, consumers):
+    """C16-3 (second half): what is computed for one policy uses only cache entries of that policy.  Every access to a
+    policy-keyed entry by a *literal* policy ("ignore"/"mask"/"fill" as key argument of get_from_cache / add_to_cache /
+    pop_from_cache / a @cached method that takes the policy) must sit in the branch of that very policy."""
+    POL = {"ignore", "mask", "fill"}
+    n = 0
+    for fi in consumers:
+        branches, has_else, ifs = policy_branches(fi)
+        decided = set(branches) - {"<else>"}
+        where_of: Dict[int, str] = {}
+        for pol, stmts in branches.items():
+            for st in stmts:
+                for x in ast.walk(st):
+                    where_of.setdefault(id(x), pol)
+        probs = []
+        for c in calls_in(fi.node):
+            lits = [a.value for a in list(c.args) + [k.value for k in c.keywords] if isinstance(a, ast.Constant) and isinstance(a.value, str) and a.value in POL]
+            fn = (chain(c.func) or "").split(".")[-1]
+            if not lits or not (fn in ("get_from_cache", "add_to_cache", "pop_from_cache", "is_in_cache") or "mean_cache" in fn or "cache" in fn):
+                continue
+            n += 1
+            here = where_of.get(id(c))
+            if here == "<else>":
+                rest = POL - decided
+                here = next(iter(rest)) if len(rest) == 1 else None
+            for lit in lits:
+                if here is None:
+                    probs.append("`%s` reads/writes the cache entry of policy '%s' outside any policy branch" % (" ".join(src(c).split())[:60], lit))
+                elif lit != here:
+                    probs.append("the '%s' branch uses the cache entry of policy '%s' (`%s`): 'mask' drops an input for the whole batch when it is missing in any batch element, 'fill' only per element, so the entries differ" % (here, lit, " ".join(src(c).split())[:60]))
+        if probs:
+            rep.add("C16-3", "%s:%s[own-policy key]" % (fi.module.name, fi.qualname), fi.where, False, "; ".join(sorted(set(probs))), {})
+    rep.add("C16-3", "gpytorch:<policy-keyed cache accesses by literal key>", "gpytorch/", True, "%d access(es) by literal policy key inspected; each sits in the branch of its own policy" % n, {"accesses": n}, trivial=True)
 
 
 # ---- C16-4 ---------------------------------------------------------------------------------------------------------
